@@ -27,6 +27,9 @@ type bbStep struct {
 type bbScenario struct {
 	Kind  string   `json:"kind"`
 	Steps []bbStep `json:"steps"`
+	// IndexDur: optional INDEX DURATION of the policy (longer than the 1 h shard duration: the ended group and the live group
+	// then share one index group, which must outlive the expired shard)
+	IndexDur string `json:"index_dur,omitempty"`
 }
 
 func runBBScenario(sc bbScenario, c *ev.Case) (viol string) {
@@ -34,7 +37,11 @@ func runBBScenario(sc bbScenario, c *ev.Case) (viol string) {
 	srv.MustStart()
 	defer srv.Destroy()
 	srv.MustExec("", "create database db0")
-	srv.MustExec("", "create retention policy rp1 on db0 duration 0s replication 1 shard duration 1h default")
+	idx := ""
+	if sc.IndexDur != "" {
+		idx = " index duration " + sc.IndexDur
+	}
+	srv.MustExec("", "create retention policy rp1 on db0 duration 0s replication 1 shard duration 1h"+idx+" default")
 	now := time.Now()
 	oldT := now.Add(-3 * time.Hour).Truncate(time.Hour).Add(10 * time.Minute) // inside an ended 1 h group
 	groupEnd := oldT.Truncate(time.Hour).Add(time.Hour)
@@ -127,6 +134,7 @@ func runBBScenario(sc bbScenario, c *ev.Case) (viol string) {
 			break
 		}
 	}
+	var forcedAt time.Time
 	if expiredSince.IsZero() {
 		if curDeadline.IsZero() || time.Until(curDeadline) > time.Hour {
 			// unlimited or lengthened far ahead: let every former deadline pass (a store still holding an old duration
@@ -142,7 +150,15 @@ func runBBScenario(sc bbScenario, c *ev.Case) (viol string) {
 			if ok, _ := have("new"); !ok {
 				return "the point inside the retention window is gone"
 			}
-			return ""
+			if sc.IndexDur == "" {
+				return ""
+			}
+			// shared index group: finally let the old shard expire (deadline 20 s in the past) - the live one must stay readable
+			dur := time.Until(groupEnd)*-1 - 20*time.Second
+			srv.MustExec("", fmt.Sprintf("alter retention policy rp1 on db0 duration %ds", int(dur.Seconds())))
+			curDeadline = groupEnd.Add(time.Duration(int(dur.Seconds())) * time.Second)
+			c.Op(bbStep{Kind: "finite", AheadS: -20})
+			forcedAt = time.Now()
 		}
 		// a finite deadline is still ahead: it must stay until then, and be removed after it
 		for time.Until(curDeadline) > 6*time.Second {
@@ -155,6 +171,9 @@ func runBBScenario(sc bbScenario, c *ev.Case) (viol string) {
 			time.Sleep(w)
 		}
 		expiredSince = curDeadline
+		if !forcedAt.IsZero() {
+			expiredSince = forcedAt // the 40 s run from the moment the passed deadline came into force
+		}
 	}
 	// expired: the data must be removed within 40 s of the deadline, and the point inside the window must stay
 	limit := expiredSince.Add(40 * time.Second)
@@ -200,7 +219,9 @@ func TestBBRetentionScenarios(t *testing.T) {
 			}
 			shape += ","
 		}
+		sc.IndexDur = rapid.SampledFrom([]string{"520w", "", "520w"}).Draw(t, "indexDuration")
 		c.Class("shape=" + shape)
+		c.Class("index-duration=" + sc.IndexDur)
 		v := runBBScenario(sc, c)
 		if v != "" {
 			c.Failf(t, prop, sc, "%s (scenario %+v)", v, sc)
